@@ -11,13 +11,27 @@ Import ListNotations.
 
 (* ---------------------------------------------------------------- strings *)
 
-(* ASCII lower-casing: what the (?i:...) flag means on the ASCII alphabet *)
+(* ASCII lower-casing: what the (?i:...) flag means for bytes patterns (and for str patterns on
+   the ASCII alphabet) *)
 Definition lower (c : ascii) : ascii :=
   let n := nat_of_ascii c in
   if (65 <=? n) && (n <=? 90) then ascii_of_nat (n + 32) else c.
 
+Definition has_flag (f : ascii) (fl : list ascii) : bool := existsb (Ascii.eqb f) fl.
+Definition flags_sub (a b : list ascii) : bool := forallb (fun f => has_flag f b) a.
+Definition ci_of (t : term) : bool := has_flag "i"%char (tflags t).
+
+Section Fold.
+
+(* What the flag i means for one character: two characters are equal under (?i:...) iff their
+   canonical case representatives are.  For bytes patterns this is ASCII lower-casing (lower);
+   for str patterns Python's sre compares simple lower-case mappings up to a few extra
+   equivalences (k K KELVIN SIGN, s S LONG S, i I DOTTED/DOTLESS I, ...): an equivalence
+   relation, so it has a canonical representative too.  The model is parametric in it. *)
+Variable fold : ascii -> ascii.
+
 Definition ch_eqb (ci : bool) (a b : ascii) : bool :=
-  if ci then Ascii.eqb (lower a) (lower b) else Ascii.eqb a b.
+  if ci then Ascii.eqb (fold a) (fold b) else Ascii.eqb a b.
 
 Fixpoint str_eqb (ci : bool) (a b : string) : bool :=
   match a, b with
@@ -25,10 +39,6 @@ Fixpoint str_eqb (ci : bool) (a b : string) : bool :=
   | String x a', String y b' => ch_eqb ci x y && str_eqb ci a' b'
   | _, _ => false
   end.
-
-Definition has_flag (f : ascii) (fl : list ascii) : bool := existsb (Ascii.eqb f) fl.
-Definition flags_sub (a b : list ascii) : bool := forallb (fun f => has_flag f b) a.
-Definition ci_of (t : term) : bool := has_flag "i"%char (tflags t).
 
 (* a string terminal matches [text] at [p]: the prefix test (case-folded iff flag i) *)
 Definition str_match_at (t : term) (text : string) (p : nat) : option nat :=
@@ -222,7 +232,7 @@ Fixpoint next_token (fuel : nat) (L : blexer) (p : nat) : nt_res :=
 
 Variable pstate : Type.
 Variable accepts : pstate -> list string.            (* parse_table.states[state].keys() *)
-Variable step : pstate -> string -> option pstate.   (* the parser consumes one token type *)
+Variable step : pstate -> tok -> option pstate.      (* the parser consumes one token *)
 
 (* accepts = set(accepts) | set(conf.ignore) | set(always_accept);
    terminals = [terminals_by_name[n] for n in accepts if n in terminals_by_name] *)
@@ -259,7 +269,7 @@ Fixpoint ctx_lex (fuel : nat) (terms : list term) (ign always : list string) (ro
               end
           | NTok r =>
               let t := tok_of (lx_terms L) r in
-              match step s (ktype t) with
+              match step s t with
               | None => ([t], CParse t)
               | Some s' =>
                   let '(ts, e) := ctx_lex f terms ign always root s' (rstart r + rlen r) in
@@ -270,3 +280,5 @@ Fixpoint ctx_lex (fuel : nat) (terms : list term) (ign always : list string) (ro
   end.
 
 End Lexer.
+
+End Fold.
